@@ -52,16 +52,16 @@ CLAIMS = {
          "token strings up to length 4 over a 16-token alphabet (and 5 more alphabets up to length 3), random characters/tokens, generated "
          "valid programs and their mutations; panics, empty error lists, empty error texts and out-of-source positions are failing inputs."),
  "C04": ("Theorem C04_roundtrip (induction on the tree with continuation lemmas for the left-associative loops and the postfix loop, and an 'eventually, for all sufficient fuel' "
-         "composition): for EVERY surface tree - identifiers, non-negative number literals, true/false/null, prefix runs of any length, * / %, + -, the seven relations, "
+         "composition): for EVERY surface tree - identifiers, integer literals of either sign (a negative literal is the token pair '-' DIGITS and sits at prefix level), uint literals, true/false/null, string/bytes literal tokens, prefix runs of any length, * / %, + -, the seven relations, "
          "&& / || chains of any length, ?:, explicit parentheses, field selection, indexing, member and global calls of non-macro names, list and map literals - the token "
          "rendering with minimal parentheses under CEL's precedence table parses - parse_tokens, i.e. with the fuel compile itself uses: the parse holds for all sufficient fuel, "
          "more fuel never changes an answer (ParserMono) and compile's fuel is never exhausted (ParserTotal) - to exactly the tree's AST: postfix forms bind tightest, then prefix runs, "
          "then each operator level; equal levels associate to the left, logical chains build the balanced tree with the operands in source order, parentheses group, arguments, "
          "elements and entries keep their order; and from SOURCE TEXT: compile(text(render t)) = tree, where text writes each token followed by a space (the lexer model is proved to "
          "read such text back token for token, numbers included). Also proved: the balanced-tree leaf order for every chain length, prefix-run parity, macros expand around receiver "
-         "and arguments. String and bytes literal tokens are leaves of the trees too (any token whose decoding is known), and one-quote literals also in the source-text theorem. Outside the theorem: negative literals (a token pair), double literals (C13), message literals. Tied to the code per case: the run checks on "
+         "and arguments. String and bytes literal tokens are leaves of the trees too (any token whose decoding is known), and one-quote literals also in the source-text theorem. Outside the theorem: double literals (C13), message literals. Tied to the code per case: the run checks on "
          "every tree of the theorem's domain (all trees with <= 2 operators in both renderings, random deeper ones, chains to 24, prefix runs to 7, mixed left-associative chains) that "
-         "the real parser's AST is the tree's AST and that the model's lexer turns the source text into exactly the rendering the theorem is about; all other trees (negative literals, "
+         "the real parser's AST is the tree's AST and that the model's lexer turns the source text into exactly the rendering the theorem is about; all other trees ("
          "nested macros, chains 2-64) are compared between the real parser, the model's parser and the expected tree."),
  "C12": ("Theorems about the literal decoders (unquote_string / unquote_bytes transcribed): for every string of scalar values, both "
          "one-quote styles and every per-character choice among verbatim, simple escape, \\x, \\X, octal, \\u and \\U spellings the literal decodes to "
